@@ -15,6 +15,8 @@ use std::sync::Arc;
 pub struct Input {
     /// Files in walk order: (root-relative path, content).
     pub files: Vec<(String, String)>,
+    /// Files that can be read but are not discovered by the walk (hidden or git-ignored files).
+    pub unwalked: Vec<(String, String)>,
     /// Unified diff on "stdin"; `None` = terminal mode (no diff).
     pub diff: Option<String>,
     pub globs: Vec<String>,
@@ -178,7 +180,7 @@ macro_rules! pipeline {
         let path_checker = blocks::PathCheckerImpl::new(globs, ignored);
         let fs = MemFs {
             order: input.files.iter().map(|(p, _)| PathBuf::from(p)).collect(),
-            files: input.files.iter().map(|(p, c)| (PathBuf::from(p), c.clone())).collect(),
+            files: input.files.iter().chain(input.unwalked.iter()).map(|(p, c)| (PathBuf::from(p), c.clone())).collect(),
         };
         let modified = match &input.diff {
             Some(diff) => match blockwatch::diff_parser::line_changes_from_diff(diff) {
